@@ -145,6 +145,13 @@ thread_local! {
     static STEPS: std::cell::Cell<u64> = const { std::cell::Cell::new(0) };
     static BUDGET: std::cell::Cell<u64> = const { std::cell::Cell::new(u64::MAX) };
     static USE_SIMPLE_EXPANDAFTER: std::cell::Cell<bool> = const { std::cell::Cell::new(false) };
+    static FIRST_ERR_AT: std::cell::Cell<i64> = const { std::cell::Cell::new(-1) };
+}
+
+/// Number of output tokens delivered when the first recoverable error of the current run was
+/// reported (-1: none).  Reset by `run_src`.
+pub fn first_err_at() -> i64 {
+    FIRST_ERR_AT.with(|f| f.get())
 }
 
 fn step() {
@@ -201,6 +208,9 @@ impl TexlangState for VS {
         &self,
         recoverable_error: texlang::error::TracedTexError,
     ) -> Result<(), Box<dyn texlang::error::TexError>> {
+        if FIRST_ERR_AT.with(|f| f.get()) < 0 {
+            FIRST_ERR_AT.with(|f| f.set(OUT.with(|o| o.borrow().len()) as i64));
+        }
         let located = format!("{recoverable_error}").contains(">>>");
         let r = errormode::recoverable_error_hook(self, recoverable_error);
         if RECOV.with(|v| v.borrow().is_some()) {
@@ -419,6 +429,7 @@ pub fn take_out() -> Vec<Tok> {
 /// Push `src` as a new source and run the VM until its input is exhausted.
 pub fn run_src<HH: vm::Handlers<VS>>(vm: &mut vm::VM<VS>, name: &str, src: &str, budget: u64) -> RunResult {
     OUT.with(|o| o.borrow_mut().clear());
+    FIRST_ERR_AT.with(|f| f.set(-1));
     STEPS.with(|s| s.set(0));
     BUDGET.with(|b| b.set(budget));
     crate::util::reset_last_panic();
